@@ -7,14 +7,22 @@ import inspect
 import json
 from urllib.parse import urlparse
 
+import itertools
+
 import sess
 import srv
+import c18_minters as cm
 from engine import coq_str, coq_list, coq_opt
 
 RULE = ("providers with 3 clients whose registrations draw subject_type from {absent, public, pairwise, ephemeral}, sector_id / "
         "sector_identifier_uri from {absent, two hosts, host with port/userinfo/upper case}, opaque and JWT access tokens, OIDC; login "
         "sequences of 3 users at the 3 clients (two logins per pair); for every grant the sub is read from the ID Token, userinfo, "
-        "introspection and (JWT) access token; a case is one grant; non-trivial when all release points answered.")
+        "introspection and (JWT) access token; a case is one grant; non-trivial when all release points answered. "
+        "CONFIGURED SUBJECT MINTERS: providers whose session_params.sub_func names minters for one, two or three subject types in every "
+        "order of the dict (library classes PublicID / PairWiseID by dotted name and as class objects, salt given or read from a file; the "
+        "library's functions; plain functions by dotted name and as objects, with their own salt or using the session salt; skipped "
+        "entries and keys no client uses), the same login sequences and release points; plus the provider's sub_func table itself, probed "
+        "key by key on providers with arbitrary (also cross-plugged) entries.")
 ASSUMPTIONS = ["SHA-256 is collision free (hypothesis H_inj of the pairwise theorem)", "urlparse(..).hostname is an environment function; "
                "its values are taken from urllib for the sector sources that occur", "uuid4 values are fresh"]
 
@@ -260,30 +268,113 @@ def other_providers(ctx, cases):
                 r.close()
 
 
-def run(ctx):
-    rng = ctx.rng
-    source_tie(ctx)
-    n_srv = 6 if ctx.quick else 80
-    cases = []
-    for si in range(n_srv):
-        jwt = si % 2 == 1
-        over = {}
-        for c in sess.CLIENTS:
-            rec = {}
-            st = rng.choice(TYPES) if si > 0 else {"client_1": "pairwise", "client_2": "pairwise", "client_12": "public"}[c]
-            if st:
-                rec["subject_type"] = st
-            sec = rng.choice(SECTORS) if si > 0 else {"client_1": SECTORS[1], "client_2": SECTORS[2], "client_12": None}[c]
-            if sec:
-                rec[rng.choice(["sector_id", "sector_identifier_uri"])] = sec
-            over[c] = rec
-        if si == 1:      # same sector through different sources and spellings
-            over = {"client_1": {"subject_type": "pairwise", "sector_id": SECTORS[1]},
-                    "client_2": {"subject_type": "pairwise", "sector_identifier_uri": SECTORS[3]},
-                    "client_12": {"subject_type": "ephemeral"}}
-        rs = sess.RealSession(oidc=True, jwt_access=jwt, client_over=over)
+def configured_session(spec, **kw):
+    """a RealSession whose provider is configured with session_params.sub_func = the dict `spec` describes (None: key absent)"""
+    if spec is None:
+        return sess.RealSession(**kw)
+    old_mk = srv.make_server
+
+    def mk(*a, **k):
+        k["sub_func"] = {key: cm.conf_entry(e) for key, e in spec}
+        return old_mk(*a, **k)
+    srv.make_server = mk
+    try:
+        return sess.RealSession(**kw)
+    finally:
+        srv.make_server = old_mk
+
+
+def model_case_conf(spec, reg, u, redirect, sub, salt):
+    """as model_case, for a provider with configured minters: the configuration in dict order goes to the model, the hash table
+    holds the digest of every text ANY minter of the configuration or a built-in one would hash for this user / client"""
+    st = reg.get("subject_type") or "public"
+    srcs = [x for x in (reg.get("sector_id"), reg.get("sector_identifier_uri"), redirect) if x]
+    hosts = [(x, host(x)) for x in srcs]
+    pre = cm.preimages(spec, u, salt, [h for _, h in hosts])
+    ht = [(x, hashlib.sha256(x.encode("utf-8")).hexdigest()) for x in pre]
+    fresh = cm.effective_recipe(spec, st) is None
+    return "(%s, %s, %s, mkCreg %s %s %s, %s, %s, %s, %s)" % (
+        coq_list(["(%s, %s)" % (coq_str(a), coq_str(b)) for a, b in ht], "(pystr * pystr)"),
+        coq_list(["(%s, %s)" % (coq_str(a), coq_str(b)) for a, b in hosts], "(pystr * pystr)"),
+        cm.coq_conf(spec),
+        coq_opt(reg.get("subject_type"), coq_str, "pystr"), coq_opt(reg.get("sector_id"), coq_str, "pystr"),
+        coq_opt(reg.get("sector_identifier_uri"), coq_str, "pystr"),
+        coq_str(redirect), coq_str(u), coq_str(salt),
+        "None" if fresh else "(Some %s)" % coq_str(sub))
+
+
+def expected_sub(spec, key, uid, salt, sector):
+    """ORACLE: what the minter the configuration names for `key` produces when called directly (a fresh instance of the
+    named class / the named function; the library's built-in function of that name when the configuration names none).
+    None for fresh-value minters (their rule is freshness) and for keys nothing serves."""
+    from idpyoidc.server.session import manager as m
+    e = cm.effective(spec, key)
+    if e is None:
+        if key not in ("public", "pairwise"):
+            return None
+        f = {"public": m.public_id, "pairwise": m.pairwise_id}[key]
+    else:
+        if cm.recipe(e) is None:
+            return None
+        f = cm.direct(e)
+    return f(uid, salt=salt, sector_identifier=sector)
+
+
+PROBE_ARGS = [("diana", "sector-a.example.org"), ("diana", "sector-b.example.org"), ("babs", "sector-a.example.org"), ("dian", "")]
+
+
+def table_probe(ctx, server, spec, tcases, kcases, tag):
+    """the provider's sub_func table itself, key by key: sub_func[key](uid, salt=.., sector_identifier=..) as create_grant
+    calls it, against the model's table (do_sub_func loop + defaults) and against the configured entry asked directly"""
+    sm = server.context.session_manager
+    salt = sm.get_salt()
+    keys = list(sm.sub_func.keys())
+    kcases.append(("(%s, %s)" % (cm.coq_conf(spec), coq_list([coq_str(k) for k in keys], "pystr")),
+                   {"table_keys": keys, "sub_func": cm.describe(spec), "where": tag}))
+    want_keys = set(k for k, e in spec if e["how"] != "skip") | {"public", "pairwise", "ephemeral"}
+    if set(keys) != want_keys:
+        ctx.violation("configured-minter-not-used", "the provider's sub_func table has keys %r, the configuration %r asks for %r"
+                      % (keys, cm.describe(spec), sorted(want_keys)), {"sub_func": cm.describe(spec), "where": tag})
+    for key in keys:
+        rcp = cm.effective_recipe(spec, key)
+        vals = []
+        for uid, sector in PROBE_ARGS:
+            try:
+                got = sm.sub_func[key](uid, salt=salt, sector_identifier=sector)
+            except Exception as ex:
+                got = "raised %r" % (ex,)
+            vals.append(got)
+            rec = {"table_probe": True, "where": tag, "sub_func": cm.describe(spec), "key": key, "uid": uid, "sector": sector, "got": got}
+            ctx.case_seen(rec, True)
+            ctx.count("table:%s" % ("fresh" if rcp is None else "hash"))
+            pre = cm.preimages(spec, uid, salt, [sector])
+            ht = [(x, hashlib.sha256(x.encode("utf-8")).hexdigest()) for x in pre]
+            tcases.append(("(%s, %s, %s, %s, %s, %s, %s)" % (
+                coq_list(["(%s, %s)" % (coq_str(a), coq_str(b)) for a, b in ht], "(pystr * pystr)"), cm.coq_conf(spec),
+                coq_str(key), coq_str(uid), coq_str(salt), coq_str(sector),
+                "None" if rcp is None else "(Some %s)" % coq_str(got)), rec))
+            want = expected_sub(spec, key, uid, salt, sector)
+            if want is not None and got != want:
+                ctx.violation("configured-minter-not-used", "sub_func[%r] of a provider configured with %r gives %s for (%s, %s); the "
+                              "minter configured for %r gives %s" % (key, cm.describe(spec), got, uid, sector, key, want), rec)
+            if rcp is not None and uid in got:
+                ctx.violation("uid-in-clear", "sub %r contains the user id %r" % (got, uid), rec)
+        if rcp is None:
+            hashes = set(hashlib.sha256(x.encode("utf-8")).hexdigest() for u_, s_ in PROBE_ARGS for x in cm.preimages(spec, u_, salt, [s_]))
+            if len(set(vals)) != len(vals) or set(vals) & hashes:
+                ctx.violation("ephemeral-repeat", "the fresh-value minter serving %r repeats / returns a hashed sub: %r" % (key, vals),
+                              {"sub_func": cm.describe(spec), "key": key, "where": tag})
+
+
+def one_provider(ctx, cases, si, jwt, over, spec=None, ccases=None, tcases=None, kcases=None):
+    """one provider, the login sequences, the four release points, the oracles.  spec: configured subject minters
+    (c18_minters spec; None = nothing configured, the built-in minters)"""
+    if True:        # (block kept at the indentation it had inside run's loop)
+        rs = configured_session(spec, oidc=True, jwt_access=jwt, client_over=over)
         try:
             salt = rs.sm.get_salt()
+            if spec is not None:
+                table_probe(ctx, rs.server, spec, tcases, kcases, "provider %s" % si)
             seen = {}       # (user, client) -> list of subs
             grants = []
             for rnd in range(2):
@@ -314,6 +405,8 @@ def run(ctx):
                         reg = rs.ctx.cdb[c]
                         rec = {"user": u, "client": c, "subject_type": reg.get("subject_type"), "sector_id": reg.get("sector_id"),
                                "sector_identifier_uri": reg.get("sector_identifier_uri"), "views": views, "jwt_access": jwt}
+                        if spec is not None:
+                            rec["sub_func"] = cm.describe(spec)
                         ctx.case_seen(rec, all(v is not None for v in views.values()))
                         ctx.count("type:%s" % reg.get("subject_type"))
                         grants.append(rec)
@@ -327,7 +420,20 @@ def run(ctx):
                         if u in sub:
                             ctx.violation("uid-in-clear", "sub %r contains the user id %r" % (sub, u), rec)
                         # ---- model case
-                        cases.append((model_case(reg, u, "https://%s.example.com/cb" % c, sub, salt), rec))
+                        if spec is None:
+                            cases.append((model_case(reg, u, "https://%s.example.com/cb" % c, sub, salt), rec))
+                        else:
+                            ccases.append((model_case_conf(spec, reg, u, "https://%s.example.com/cb" % c, sub, salt), rec))
+                            # ---- oracle: the client gets what the minter configured for ITS subject type produces when asked
+                            #      directly (the built-in function of that name when the configuration names none)
+                            st = reg.get("subject_type") or "public"
+                            ctx.count("configured:%s:%s" % (st, (cm.effective(spec, st) or {"how": "built-in"})["how"]))
+                            want = expected_sub(spec, st, u, salt, host(reg.get("sector_id") or reg.get("sector_identifier_uri")
+                                                                        or "https://%s.example.com/cb" % c))
+                            if want is not None and sub != want:
+                                ctx.violation("configured-minter-not-used", "client %s (subject type %s) of a provider configured with sub_func %r "
+                                              "got sub %s for user %s; the minter configured for %s produces %s"
+                                              % (c, st, cm.describe(spec), sub, u, st, want), rec)
             # ---- a further authorization request from the same browser (session cookie of the first response replayed),
             #      same client, other state/nonce: a new grant under the live session
             for u in sess.USERS[:2]:
@@ -388,9 +494,114 @@ def run(ctx):
                             ctx.violation("users-share-sub", "users %s and %s share a sub at %s" % (a, b, c), {"client": c})
         finally:
             rs.close()
+
+
+OWN_SALTS = ["tenant-salt-public", "tenant-salt-pairwise", "s", "s\u00e4lt-\u00fc/\u00df", "salt-verif-0123456789"]
+STD_KEYS = ["public", "pairwise", "ephemeral"]
+
+
+def draw_entry(rng, behaviour):
+    """an entry whose minter BEHAVES as `behaviour` asks (public: sector-blind hash, pairwise: hashes the sector, ephemeral:
+    fresh value), through every way of naming it"""
+    if behaviour == "ephemeral":
+        return rng.choice([{"how": "fn-str", "kind": ("ephemeral_id",)}, {"how": "fn-obj", "kind": ("ephemeral_id",)},
+                           {"how": "fn-str", "kind": ("custom-fresh", "e")}, {"how": "fn-obj", "kind": ("custom-fresh", "x-")}])
+    cls = "PublicID" if behaviour == "public" else "PairWiseID"
+    fn = "public_id" if behaviour == "public" else "pairwise_id"
+    us = behaviour == "pairwise"
+    salt = rng.choice(OWN_SALTS)
+    return rng.choice([
+        {"how": "class-str", "kind": (cls, salt)}, {"how": "class-obj", "kind": (cls, salt)},
+        {"how": "class-str", "kind": (cls, salt)}, {"how": rng.choice(["class-str", "class-obj"]), "kind": (cls + "-file", salt)},
+        {"how": "fn-str", "kind": (fn,)}, {"how": "fn-obj", "kind": (fn,)},
+        {"how": "fn-str", "kind": ("custom", "site|", us, None)},
+        {"how": "fn-obj", "kind": ("custom", rng.choice(["", "t1:", "site|"]), us, rng.choice([None, salt]))}])
+
+
+def draw_spec(rng, order, sensible=True):
+    """the configured dict: the subject types of `order`, in that order; now and then a skipped entry for a type not in
+    `order` and a key no client uses, at a drawn position.  sensible=False: any minter under any key (cross-plugged)"""
+    spec = [(k, draw_entry(rng, k if sensible else rng.choice(STD_KEYS))) for k in order]
+    rest = [k for k in STD_KEYS if k not in order]
+    if rest and rng.random() < 0.4:
+        spec.insert(rng.randrange(len(spec) + 1), (rng.choice(rest), {"how": "skip", "kind": None}))
+    if rng.random() < 0.4:
+        spec.insert(rng.randrange(len(spec) + 1), ("persistent", draw_entry(rng, rng.choice(STD_KEYS))))
+    return spec
+
+
+TYPE_PATTERNS = [["public", "public", "pairwise"], ["pairwise", "pairwise", "public"], ["public", "pairwise", "ephemeral"],
+                 [None, "pairwise", "public"], ["pairwise", "public", "pairwise"], ["ephemeral", "public", "public"]]
+
+
+def configured_providers(ctx, cases):
+    """providers with configured subject minters: every ordered choice of one, two or three subject types (15), the
+    minters drawn per type; clients of the configured AND of the unconfigured types; the full login sequences"""
+    rng = ctx.rng
+    orders = [o for n in (1, 2, 3) for o in itertools.permutations(STD_KEYS, n)]
+    ccases, tcases, kcases = [], [], []
+    for rep in range(1 if ctx.quick else 4):
+        for oi, order in enumerate(orders):
+            if rep == 0 and order == ("public", "pairwise"):       # the documented configuration (doc/server/contents/conf.rst)
+                spec = [("public", {"how": "class-str", "kind": ("PublicID", OWN_SALTS[0])}),
+                        ("pairwise", {"how": "class-str", "kind": ("PairWiseID", OWN_SALTS[1])})]
+            elif rep == 0 and order == ("pairwise", "public"):
+                spec = [("pairwise", {"how": "class-str", "kind": ("PairWiseID", OWN_SALTS[1])}),
+                        ("public", {"how": "class-str", "kind": ("PublicID", OWN_SALTS[0])})]
+            else:
+                spec = draw_spec(rng, order)
+            types = list(TYPE_PATTERNS[(oi + rep) % len(TYPE_PATTERNS)])
+            rng.shuffle(types)
+            over = {}
+            for c, st in zip(sess.CLIENTS, types):
+                rec = {}
+                if st:
+                    rec["subject_type"] = st
+                sec = rng.choice(SECTORS)
+                if sec:
+                    rec[rng.choice(["sector_id", "sector_identifier_uri"])] = sec
+                over[c] = rec
+            ctx.count("configured-providers:%d-types" % len(order))
+            one_provider(ctx, cases, "configured-%d-%d" % (rep, oi), (oi + rep) % 2 == 1, over, spec=spec, ccases=ccases, tcases=tcases, kcases=kcases)
+    # ---- the table alone, on providers with arbitrary entries (any minter under any key, also none at all)
+    for ti in range(10 if ctx.quick else 60):
+        order = rng.choice(orders)
+        spec = [] if ti == 0 else draw_spec(rng, order, sensible=False)
+        server = srv.make_server(clients=sess.CLIENTS, sub_func={k: cm.conf_entry(e) for k, e in spec})
+        ctx.count("table-only-providers")
+        table_probe(ctx, server, spec, tcases, kcases, "table-only %d" % ti)
+    imports = ["Lib.Base", "Lib.PyStr", "Model.Sub"]
+    ctx.coq_check_cases(imports, "subc_case", "chk_subc", ccases, shard=60, label="subconf")
+    ctx.coq_check_cases(imports, "table_case", "chk_table", tcases, shard=100, label="table")
+    ctx.coq_check_cases(imports, "list (pystr * centry) * list pystr", "chk_table_keys", kcases, label="tablekeys")
+
+
+def run(ctx):
+    rng = ctx.rng
+    source_tie(ctx)
+    n_srv = 6 if ctx.quick else 80
+    cases = []
+    for si in range(n_srv):
+        jwt = si % 2 == 1
+        over = {}
+        for c in sess.CLIENTS:
+            rec = {}
+            st = rng.choice(TYPES) if si > 0 else {"client_1": "pairwise", "client_2": "pairwise", "client_12": "public"}[c]
+            if st:
+                rec["subject_type"] = st
+            sec = rng.choice(SECTORS) if si > 0 else {"client_1": SECTORS[1], "client_2": SECTORS[2], "client_12": None}[c]
+            if sec:
+                rec[rng.choice(["sector_id", "sector_identifier_uri"])] = sec
+            over[c] = rec
+        if si == 1:      # same sector through different sources and spellings
+            over = {"client_1": {"subject_type": "pairwise", "sector_id": SECTORS[1]},
+                    "client_2": {"subject_type": "pairwise", "sector_identifier_uri": SECTORS[3]},
+                    "client_12": {"subject_type": "ephemeral"}}
+        one_provider(ctx, cases, si, jwt, over)
     dynamic_registration(ctx, cases)
     handover(ctx, cases)
     other_providers(ctx, cases)
+    configured_providers(ctx, cases)
     ctx.coq_check_cases(["Lib.Base", "Lib.PyStr", "Model.Sub"], "sub_case", "chk_sub", cases, shard=60, label="sub")
 
 
